@@ -503,13 +503,22 @@ def run(chk):
              "virtual time for retransmissions, harness-sealed future-generation records; in about half of the "
              "runs the first epoch is preset in-package to have carried 2^16 .. 2^32 records, and the longepoch "
              "scenario loses the KeyUpdate's ACK k times, writes while it is outstanding and delivers old-epoch "
-             "records after new-epoch ones); every step's emitted "
+             "records after new-epoch ones; in one run of eight (variant shadow) an off-path sender plants one "
+             "unprotected epoch-0 handshake fragment numbered like the peer's 2nd..4th post-handshake message in "
+             "the client's or the server's reassembly buffer while the handshake runs, then that peer updates its "
+             "keys as many times and writes - the model carries the planted numbers in its configuration and "
+             "predicts what the code does, the monitor keyupdate-acked-not-applied judges it = known finding "
+             "K-C20-1); every step's emitted "
              "records (epoch, sequence number, content), reads, UpdateKeys returns and the four epochs are compared "
              "with the model evaluated in Coq; evaluations = compared steps. Non-trivial trace = at least one "
              "UpdateKeys returned and the network reordered, duplicated, lost or forged-ahead something; distinct by "
              "digest of the step sequence. conc leg: 1-3 writer goroutines per side racing UpdateKeys loops under "
              "loss/duplication/holding, then a healed network - monitors only; evaluations = deliveries.",
         assumptions=["AEAD authenticity (C05): only records the peer emitted are opened - premise [authentic] of the theorems",
+                     "premise [no_shadow] of the theorems about runs (part of GInv): no unauthenticated fragment "
+                     "numbered like a future post-handshake message was left in a reassembly buffer during the "
+                     "handshake; NOT enforced by the code (known finding K-C20-1, witness theorem "
+                     "C20_shadowed_keyupdate_refuted, scenario `shadow` of the trace leg)",
                      "traffic-secret bytes (HKDF-Expand-Label) are C10's; here the successor relation is recomputed "
                      "independently in the harness (crypto/hmac) and secrets are uninterpreted terms in the model",
                      "replay detector lives in pion/transport (C06: Rec/Window.v)",
